@@ -80,7 +80,7 @@ class CCodeMapper(SimplifyingSortingStringifyMapper):
         self.cse_prefix = cse_prefix
 
         self.cse_to_name = {cse: name for name, cse in cse_name_list}
-        self.cse_names = {cse for name, cse in cse_name_list}
+        self.cse_names = {name for name, cse in cse_name_list}
         self.cse_name_list = cse_name_list[:]
 
         self.complex_constant_base_type = complex_constant_base_type
@@ -88,9 +88,17 @@ class CCodeMapper(SimplifyingSortingStringifyMapper):
     def copy(self, cse_name_list=None):
         if cse_name_list is None:
             cse_name_list = self.cse_name_list
-        return CCodeMapper(self.reverse,
+        result = CCodeMapper(self.reverse,
                 self.cse_prefix, self.complex_constant_base_type,
                 cse_name_list)
+        # The list only has the assigned texts; the expressions they
+        # stand for are known to cse_to_name.
+        known_names = set(self.cse_to_name.values())
+        result.cse_to_name = {
+                cse: name for cse, name in result.cse_to_name.items()
+                if name not in known_names}
+        result.cse_to_name.update(self.cse_to_name)
+        return result
 
     def copy_with_mapped_cses(self, cses_and_values):
         return self.copy(self.cse_name_list + cses_and_values)
